@@ -484,9 +484,13 @@ Proof. exact single_no_more. Qed.
    no speculative policy: ONE fiber, and it had NOT run to its end; gate open: a fiber may have ended,
    e.g. with an ignorable error, waiting for the next timer tick), same-node retries on the same shard,
    within the whole-request frame bound; the call returned
-   no earlier than the timeout after it started; no frame arrives more than the margin after it returned. *)
-Theorem C06_e2e_timeout : forall p idem spec cl0 nodes down cs assign frs t0 tmo tret margin,
-  check_timeout p idem spec cl0 nodes down cs assign frs t0 tmo tret margin = true ->
+   no earlier than the timeout after it started; no frame arrives more than the margin after it returned;
+   a certificate may call a fiber "cancelled with its last frame in flight" although that frame's answer was
+   logged only if the answer came no earlier than [smargin] before t0 + tmo, the earliest instant the timeout
+   can have fired ([free_answer_ok]; "had not run to its end" is a claim of the certificate, this clause
+   is what ties it to the clock). *)
+Theorem C06_e2e_timeout : forall p idem spec cl0 nodes down cs assign frs t0 tmo tret margin smargin,
+  check_timeout p idem spec cl0 nodes down cs assign frs t0 tmo tret margin smargin = true ->
   let max := match gate_open idem spec with Some m => m | None => 0%nat end in
   (1 <= List.length cs <= 1 + max)%nat
   /\ NoDup (concat (map c_plan cs)) /\ incl (concat (map c_plan cs)) nodes
@@ -496,40 +500,53 @@ Theorem C06_e2e_timeout : forall p idem spec cl0 nodes down cs assign frs t0 tmo
                     /\ seq_ok (sub_frames i assign frs) = true
                     /\ (forall t, In t (conn_fail_targets tr) -> In t down)
                     /\ shards_ok down (sub_frames i assign frs) = true
+                    /\ free_answer_ok t0 tmo smargin c (sub_frames i assign frs) = true
                     /\ (gate_open idem spec = None -> fiber_finished c r = false))
   /\ (List.length frs <= frame_bound p (1 + max) (List.length nodes))%nat
   /\ (t0 + tmo <= tret)%N
   /\ (forall f, In f frs -> (f_arr f <= tret + margin)%N).
 Proof. exact timeout_sound. Qed.
 
-(* after the call has given up with RequestTimeout nothing is sent any more: the predicate the driver
-   evaluates on a rejected timed-out request holds of every accepted one *)
-Theorem C06_e2e_timeout_frames : forall p idem spec cl0 nodes down cs assign frs t0 tmo tret margin,
-  check_timeout p idem spec cl0 nodes down cs assign frs t0 tmo tret margin = true ->
+(* DEFINITIONAL (a projection of the last conjunct of C06_e2e_timeout onto the frames after the first,
+   as the boolean the driver evaluates): after the call has given up with RequestTimeout nothing is sent
+   AGAIN.  One late FIRST frame is not a re-send and is not judged by this predicate. *)
+Theorem C06_e2e_timeout_frames : forall p idem spec cl0 nodes down cs assign frs t0 tmo tret margin smargin,
+  check_timeout p idem spec cl0 nodes down cs assign frs t0 tmo tret margin smargin = true ->
   prop_timeout_frames tret margin frs = true.
 Proof. exact timeout_prop_frames. Qed.
 
 Example C06_ex_timeout_frames :
   prop_timeout_frames 101000 150000 [mkFrame 2 CQuorum 10 AnsNone 0 0; mkFrame 0 CQuorum 640000 AnsNone 0 0] = false /\
-  prop_timeout_frames 101000 150000 [mkFrame 2 CQuorum 10 AnsNone 0 0; mkFrame 0 CQuorum 240000 AnsNone 0 0] = true.
-Proof. vm_compute. split; reflexivity. Qed.
+  prop_timeout_frames 101000 150000 [mkFrame 2 CQuorum 10 AnsNone 0 0; mkFrame 0 CQuorum 240000 AnsNone 0 0] = true /\
+  (* the boundary: 1 us beyond tret + margin; and ONE late frame is not a re-send *)
+  prop_timeout_frames 101000 150000 [mkFrame 2 CQuorum 10 AnsNone 0 0; mkFrame 0 CQuorum 251000 AnsNone 0 0] = true /\
+  prop_timeout_frames 101000 150000 [mkFrame 2 CQuorum 10 AnsNone 0 0; mkFrame 0 CQuorum 251001 AnsNone 0 0] = false /\
+  prop_timeout_frames 101000 150000 [mkFrame 2 CQuorum 640000 AnsNone 0 0] = true.
+Proof. vm_compute. repeat split; reflexivity. Qed.
 
 Example C06_ex_timeout :
   (* not idempotent, timeout 100 ms, the only frame unanswered when the call returned at 101 ms *)
   check_timeout PDefault false (Some 2%nat) CQuorum [0; 1; 2]%N [] [mkCert [2]%N [OSuccess] true] [0%nat]
-    [mkFrame 2 CQuorum 10 AnsNone 0 0] 0 100000 101000 150000 = true /\
+    [mkFrame 2 CQuorum 10 AnsNone 0 0] 0 100000 101000 150000 20000 = true /\
   (* ... a second fiber is not accepted for it *)
   check_timeout PDefault false (Some 2%nat) CQuorum [0; 1; 2]%N []
     [mkCert [2]%N [OSuccess] true; mkCert [0]%N [OSuccess] true] [0; 1]%nat
-    [mkFrame 2 CQuorum 10 AnsNone 0 0; mkFrame 0 CQuorum 30010 AnsNone 0 0] 0 100000 101000 150000 = false /\
+    [mkFrame 2 CQuorum 10 AnsNone 0 0; mkFrame 0 CQuorum 30010 AnsNone 0 0] 0 100000 101000 150000 20000 = false /\
   (* a frame long after the call returned; a call that returned before the timeout *)
   check_timeout PDefault false None CQuorum [0; 1; 2]%N [] [mkCert [2]%N [OSuccess] true] [0%nat]
-    [mkFrame 2 CQuorum 400000 AnsNone 0 0] 0 100000 101000 150000 = false /\
+    [mkFrame 2 CQuorum 400000 AnsNone 0 0] 0 100000 101000 150000 20000 = false /\
   check_timeout PDefault false None CQuorum [0; 1; 2]%N [] [mkCert [2]%N [OSuccess] true] [0%nat]
-    [mkFrame 2 CQuorum 10 AnsNone 0 0] 0 100000 90000 150000 = false /\
+    [mkFrame 2 CQuorum 10 AnsNone 0 0] 0 100000 90000 150000 20000 = false /\
   (* gate closed: the fiber ended with Overloaded at 20 us -- the caller cannot have got a timeout *)
   check_timeout PDefault false None CQuorum [0; 1; 2]%N [] [mkCert [2; 0; 1]%N [OError (EDbError DbOverloaded)] false] [0%nat]
-    [mkFrame 2 CQuorum 10 (AnsErr (EDbError DbOverloaded)) 20 1] 0 100000 101000 150000 = false.
+    [mkFrame 2 CQuorum 10 (AnsErr (EDbError DbOverloaded)) 20 1] 0 100000 101000 150000 20000 = false /\
+  (* ... and a certificate that calls that fiber "cancelled with its frame in flight" is not accepted either:
+     the answer was logged 99.98 ms before the timeout could fire *)
+  check_timeout PDefault false None CQuorum [0; 1; 2]%N [] [mkCert [2; 0; 1]%N [OError (EDbError DbOverloaded)] true] [0%nat]
+    [mkFrame 2 CQuorum 10 (AnsErr (EDbError DbOverloaded)) 20 1] 0 100000 101000 150000 20000 = false /\
+  (* but an answer logged 5 ms before the timeout may have been overtaken by it *)
+  check_timeout PDefault false None CQuorum [0; 1; 2]%N [] [mkCert [2; 0; 1]%N [OError (EDbError DbOverloaded)] true] [0%nat]
+    [mkFrame 2 CQuorum 10 (AnsErr (EDbError DbOverloaded)) 95000 1] 0 100000 101000 150000 20000 = true.
 Proof. vm_compute. repeat split; reflexivity. Qed.
 
 (* Shard-aware targets: a plan target is a (node, shard) pair.  Consecutive frames of an accepted
